@@ -522,6 +522,48 @@ def matcher_loop(prog: Program, f: Func) -> tuple[ast.For, str, str, str]:
         raise AnchorMissing(f"{f.qual}: expected exactly one loop over the candidate pairs, found {len(loops)}")
     lp = loops[0]
     t = lp.target
-    if isinstance(t, ast.Tuple) and len(t.elts) == 2 and isinstance(t.elts[0], ast.Name) and isinstance(t.elts[1], ast.Tuple) and len(t.elts[1].elts) == 2 and all(isinstance(x, ast.Name) for x in t.elts[1].elts):
-        return lp, t.elts[0].id, t.elts[1].elts[0].id, t.elts[1].elts[1].id
-    raise Undecided(f"{f.qual}: candidate loop target is not of the form score, (ref, pred)")
+    # the layout of a candidate record is whatever the generator produces (read off its abstract
+    # run): the loop target must take it apart position by position
+    layout = candidate_layout(prog)
+
+    def paths(node, prefix=()):
+        if isinstance(node, ast.Name):
+            return {prefix: node.id}
+        if isinstance(node, (ast.Tuple, ast.List)) and not any(isinstance(x, ast.Starred) for x in node.elts):
+            out = {}
+            for i, x in enumerate(node.elts):
+                sub = paths(x, prefix + (i,))
+                if sub is None:
+                    return None
+                out.update(sub)
+            return out
+        return None
+
+    tp = paths(t)
+    if tp is not None and set(tp) == set(layout):
+        by_role = {layout[pth]: name for pth, name in tp.items()}
+        return lp, by_role["score"], by_role["ref"], by_role["pred"]
+    raise Undecided(f"{f.qual}: candidate loop target {norm(t)} does not take a candidate record {sorted(layout.items())} apart position by position")
+
+
+_LAYOUT_CACHE: dict = {}
+
+
+def candidate_layout(prog: Program) -> dict:
+    """{position path -> 'score' | 'ref' | 'pred'} of the records the candidate generator returns,
+    e.g. {(0,): 'score', (1, 0): 'ref', (1, 1): 'pred'} for (score, (ref, pred)).  Determined by
+    running the generator abstractly (c03.CandInterp); if that is not possible the pinned layout."""
+    key = id(prog)
+    if key in _LAYOUT_CACHE:
+        return _LAYOUT_CACHE[key][1]
+    default = {(0,): "score", (1, 0): "ref", (1, 1): "pred"}
+    layout = default
+    try:
+        from . import c03
+
+        layout = c03.generator_layout(prog) or default
+    except (Undecided, AnchorMissing):
+        layout = default
+    _LAYOUT_CACHE.clear()
+    _LAYOUT_CACHE[key] = (prog, layout)
+    return layout
